@@ -1,3 +1,17 @@
 pub mod codec;
 pub mod core;
+pub mod drop;
 pub mod synctest;
+
+use crate::scenario::Scenario;
+use crate::world::{ExecResult, Violation};
+
+pub type JudgeFn = fn(&Scenario, &ExecResult, Option<&ExecResult>) -> Vec<Violation>;
+
+/// The end-of-run judge that belongs to a property (replay uses it).
+pub fn judge_for(prop: &str) -> JudgeFn {
+    match prop {
+        "C07" => drop::judge,
+        _ => core::no_judge,
+    }
+}
